@@ -196,6 +196,9 @@ func judge(o *vlib.Oracle, j job, wo *WorkerOut, races []raceReport) {
 				map[string]interface{}{"job": j, "stacks": wo.CreateFailStacks})
 		}
 	}
+	if wo.UIStuck != "" {
+		r.PropFail("operator-command-never-completes", "with the real text UI driving the node (main loop serving usif.UiChannel between blocks): "+wo.UIStuck, rp)
+	}
 	for _, d := range wo.Diffs {
 		kind := strings.Fields(d.Note + " ?")[0]
 		r.PropFail("schedule-dependent:"+kind, fmt.Sprintf("under schedule %s op %d (%s) gave %+v, the sequential reference %+v", d.Cfg, d.Op, d.Note, d.Got, d.Ref),
@@ -388,7 +391,7 @@ func main() {
 	}
 	defer o.Close()
 	r.Assume = []string{
-		"UnspentDB.Save/Idle/Close/CommitBlockTxs/UndoBlockTxs are called from one goroutine (gocoin's main loop); other goroutines only call HurryUp and AbortWriting — a direct Save() (no db.Mutex) racing a commit on ANOTHER goroutine is outside the model: abortWriting could then pass writingDone.Wait before Save's Add(1)",
+		"UnspentDB.Save/Idle/Close/CommitBlockTxs/UndoBlockTxs/PurgeUnspendable/DefragMap/AbortWriting are executed by one goroutine (gocoin's main loop) - no longer a bare assumption: gen_c11 (thread.go) lists every call site of them in the whole client with the goroutines that can reach it (call graph over go/types incl. function values and the text UI's command table with its thread flag) and the kernel decides that none is reachable from another goroutine (source_thread_facts); foreign_save_counterexample shows what one direct Save() on another goroutine does. Not resolved by that call graph: calls through interface methods, function values returned from functions, reflection",
 		"os.Create of the snapshot file succeeds in the MODEL; on the real code a failing os.Create is exercised by the directed scenario createfail (fix 881f68ff: the file goroutine now drains the channels and reports the file closed; before, the next save() parked in lastFileClosed.Wait and the next CommitBlockTxs hung holding db.Mutex)",
 		"UnspentDB.commit: the add/delete workers of one block touch pairwise different map keys - the map key is the first 8 bytes of the txid (UtxoKeyType), so this ASSUMES that no two transactions created or spent by one block share their first 8 txid bytes (hypothesis Nodup of disjoint_updates_commute; a collision needs about 2^32 work; checked on every block of the scenarios run: histogram commit:update-keys-distinct)",
 		"memory-level data races are observed only through the Go race detector on the schedules that were run",
@@ -418,6 +421,17 @@ func main() {
 			}
 		}
 		r.TieFail("ownership-facts:"+bad, msg, map[string]interface{}{"oracle": rep})
+	} else {
+		r.TieOK()
+	}
+	// which goroutine may start a snapshot / mutate the maps: call sites over the whole client (gen_c11 thread.go)
+	if rep := o.MustAsk("tfacts"); rep != "ok 1 -" {
+		f := strings.Fields(rep + " ? ?")
+		what := "the call graph from main.main no longer reaches the operations on the main goroutine (block path, idle timer, operator's save command, Close)"
+		if f[2] != "-" {
+			what = "a goroutine other than the main one can execute UnspentDB." + strings.ReplaceAll(f[2], ",", " / ") + " (a `go` statement, an HTTP / timer callback, or a command of the text UI's table that the UI goroutine runs itself): the hand-shake abortWriting-then-mutate of CommitBlockTxs / UndoBlockTxs only excludes saves started by the committing goroutine - a snapshot started elsewhere can read the header of one block and the maps of another (Props.C11.foreign_save_counterexample)"
+		}
+		r.TieFail("thread-facts:"+f[2], "the thread-affinity facts regenerated from the client's source do not hold: "+what, map[string]interface{}{"oracle": rep})
 	} else {
 		r.TieOK()
 	}
@@ -454,10 +468,14 @@ func main() {
 		for s := 1; s <= 2; s++ {
 			jobs = append(jobs, job{Seed: r.Seed, Shard: s, Tier: "thorough", Only: "recycle,bigsnap"})
 		}
+		for s := 0; s <= 1; s++ {
+			jobs = append(jobs, job{Seed: r.Seed, Shard: s, Tier: "thorough", Only: "operator"})
+		}
 	} else {
 		jobs = []job{{Seed: r.Seed, Shard: 0, Tier: "quick", Only: "recycle"}, {Seed: r.Seed, Shard: 0, Tier: "quick", Only: "chain"},
 			{Seed: r.Seed, Shard: 1, Tier: "quick", Only: "chain"}, {Seed: r.Seed, Shard: 0, Tier: "quick", Only: "compr"},
-			{Seed: r.Seed, Shard: 0, Tier: "quick", Only: "resave,bigsnap"}, {Seed: r.Seed, Shard: 0, Tier: "quick", Only: "createfail"}}
+			{Seed: r.Seed, Shard: 0, Tier: "quick", Only: "resave,bigsnap"}, {Seed: r.Seed, Shard: 0, Tier: "quick", Only: "createfail"},
+			{Seed: r.Seed, Shard: 0, Tier: "quick", Only: "operator"}}
 	}
 	type result struct {
 		j     job
@@ -515,5 +533,6 @@ func main() {
 		"The synchronisation protocols (snapshot writer vs committer, commitTxs fan-out, BlockDB publish-last, disjoint-key updates, atomic sums, compute-once caches) are modelled as transition systems with an arbitrary scheduler; "+
 			"snapshot_atomic, no_deadlock (data_channel capacity >= 1), commit_schedule_independent and the supporting invariants are proved in Lean for ALL programs and interleavings of those systems; the lock discipline and 16 protocol-shape facts are decided by the kernel on the synchronisation sequences regenerated from the source on this run. "+
 			"What no executable Lean model exhibits — and is therefore only explored, not proved — is the Go memory model itself: word tearing and reordering of unsynchronised accesses, the real goroutine scheduler, map-iteration order, and OS file semantics (two writers on one inode). Those, and the faithfulness of the hand-written transition systems beyond the shape facts, are covered by running the real code under the race detector with GOMAXPROCS 1..16 and pseudo-random yields/sleeps at every vhook point (chain scenarios, the directed same-tip resave, and a compressed-UTXO scenario with several SerializeC calls in flight), which samples schedules and proves nothing about the ones not run. "+
-			"Ownership of memory handed to another goroutine (chunk buffers of save(), undo entries vs the recycling record allocator, the start order of the script workers) is modelled in Model/ConcOwn.lean: safety for every schedule is proved for 'fresh buffer or ring of at least capacity+1', 'undo entries own copies', 'workers start after the collection', each with a counterexample for the alternative, and tied to the source by three regenerated facts; the real code is driven into those situations by taproot key-path consolidations (the sighash that reads all spent outputs), churn blocks on an aged recycling allocator with a slow undo writer, a run-to-block replay (one P, no yields) with Idle called twice and a commit right after Idle, and a big snapshot to a stalled disk.")
+			"Ownership of memory handed to another goroutine (chunk buffers of save(), undo entries vs the recycling record allocator, the start order of the script workers) is modelled in Model/ConcOwn.lean: safety for every schedule is proved for 'fresh buffer or ring of at least capacity+1', 'undo entries own copies', 'workers start after the collection', each with a counterexample for the alternative, and tied to the source by three regenerated facts; the real code is driven into those situations by taproot key-path consolidations (the sighash that reads all spent outputs), churn blocks on an aged recycling allocator with a slow undo writer, a run-to-block replay (one P, no yields) with Idle called twice and a commit right after Idle, and a big snapshot to a stalled disk. "+
+			"Which goroutine may start a snapshot: the protocol is proved for saves started by the committing goroutine (committer_started_saves_atomic) and broken by one direct Save() elsewhere (foreign_save_counterexample); that the node calls Save/Idle/Close/CommitBlockTxs/UndoBlockTxs/PurgeUnspendable/DefragMap/AbortWriting on its main goroutine only is regenerated from the whole client (call graph with function values and the text UI's command table) and decided by the kernel (source_thread_facts); job `operator` runs the real textui.MainThread on a piped keyboard next to a main loop that serves usif.UiChannel between blocks, a seeded operator typing saveutxo / utxodb / bchain / defrag map / ... mostly while a block is being committed.")
 }
